@@ -15,7 +15,7 @@ def declare(S: Spec):
     S.cls("UUID", {})
     S.cls("DAG", {"dag_id": Ref("UUID"), "node_ids": List(Ref("UUID")), "node_lookup": Dict(Ref("UUID"), Ref("Node")),
                   "roots": List(Ref("Node")), "iter": Ref("DAGIterator")},
-          immutable=("dag_id", "node_ids", "node_lookup", "roots"))
+          immutable=("dag_id", "node_ids", "node_lookup", "roots"), owned=("node_ids", "node_lookup", "roots"))
     S.cls("DAGIterator", {"dag": Ref("DAG"), "returned": Set(Ref("UUID")), "queue": List(Ref("Node"))},
           immutable=("dag", "returned", "queue"), owned=("returned", "queue"))
     S.cls("Segment", {"baseline_cpu_seconds": REAL, "memory_gb": Opt(REAL), "storage_read_gb": REAL, "scaling_func": Fn("scaling")},
